@@ -193,7 +193,9 @@ func (dec *Decoder) decodeBigRat(t reflect.Type, tag byte, p **big.Rat) {
 	case TagInteger:
 		*p = big.NewRat(dec.ReadInt64(), 1)
 	case TagLong:
-		*p = new(big.Rat).SetInt(dec.readBigInt(t))
+		if bi := dec.readBigInt(t); bi != nil { // nil: the digits were cut off or malformed, dec.Error is set
+			*p = new(big.Rat).SetInt(bi)
+		}
 	case TagDouble:
 		*p = new(big.Rat).SetFloat64(dec.ReadFloat64())
 	case TagUTF8Char:
